@@ -171,7 +171,7 @@ PROPS = {
     },
     "C16": {
         "level": "proof",
-        "kani": ["array_visitor_total_n1", "array_visitor_total_n5", "boxed_array_visitor_total_n1", "vec_visitor_bounded_allocation", "g1_codec_short_input", "channel_id_from_str_exact"],
+        "kani": ["array_visitor_total_n1", "array_visitor_total_n5", "boxed_array_visitor_total_n1", "vec_visitor_bounded_allocation", "g1_codec_short_input", "channel_id_from_str_exact", "big_boxed_array_total_n2"],
         "scans": ["no_unsafe"],
         "assumptions": [
             "code generated by serde_derive and bincode's own reader are not under contract (macro-generated / dependency)",
